@@ -38,7 +38,10 @@ CLAIMS["C14"] = dict(
          "(scan mode; loop invariants, no bound); apply_configuration builds the four dispatch lists as exactly the selected rules whose "
          "class implements the callback, each once, after configuring and initialising every selected rule exactly once "
          "(__apply_configuration; witnesses kept in ghost index lists).",
-    note=TB + "Fix mode (context_map given): only exception wrapping and frames are proved, not the per-rule event sequence. That "
+    note=TB + "Fix mode: the token pass of a fix level (FileScanHelper.__process_file_fix_tokens) is proved at engine level -- both contexts "
+              "started, every token delivered once in order with the rule -> context map, completed_file once, fixes applied afterwards "
+              "(the token list is assumed not to be changed by the rules while it is walked); inside the dispatchers with a context_map only "
+              "exception wrapping, frames and 'one write per line' are proved, not the per-rule event sequence. That "
               "set_configuration_map derives the four is_*_implemented flags from the class dictionary is an assumed contract (class "
               "introspection). The per-rule projection of the two trace levels is composed on paper (DESIGN.md 5/C14).")
 CLAIMS["C07"] = dict(
